@@ -492,6 +492,11 @@ def solve_text(args):
             if r == z3.sat:
                 return "failed", z3ver, time.time() - t0, model_to_str(s.model())
         reason = s.reason_unknown() if hasattr(s, "reason_unknown") else str(s)
+        dd = os.environ.get("VERIF_DUMP_UNDECIDED")
+        if dd:
+            os.makedirs(dd, exist_ok=True)
+            with open(os.path.join(dd, f"q{abs(hash(smt2))}.smt2"), "w") as f:
+                f.write(smt2)
         return "undecided", f"z3:{reason};cvc5:{v2}", time.time() - t0, None
     finally:
         if cv is not None:
